@@ -34,6 +34,8 @@ HIER = {
     'XMLSyntaxError': ['ParseError', 'LxmlSyntaxError', 'LxmlError',
                        'SyntaxError', 'Error', 'Exception'],
     'ParserError': ['LxmlError', 'Error', 'Exception'],
+    'XMLSchemaValidateError': ['XMLSchemaError', 'LxmlError', 'Error',
+                               'Exception'],
     'JSONDecodeError': ['ValueError', 'Exception'],
     'YAMLError': ['Exception'],
     'MarkedYAMLError': ['YAMLError', 'Exception'],
@@ -604,6 +606,11 @@ class ExcFlow(object):
             if not self._bytes_typed(f, a0):
                 out.append('ValueError')
             return out
+        if nm == 'validate' and isinstance(call.func, ast.Attribute) and \
+                'validation_schema' in unparse(call.func.value):
+            # libxml2's validator gives up on nodes it does not know
+            # (entity references): an exception instead of a False verdict
+            return ['XMLSchemaValidateError']
         if nm == 'loads' and (d.startswith('json.') or
                               target.startswith('json') or
                               target.startswith('simplejson')):
